@@ -483,6 +483,41 @@ func newRWWorld(c rwCase) *rwWorld {
 	return w
 }
 
+// checkLiveRegistered: a stream that is open (not ended by the harness, handler still running) owns its shard on the
+// instance it landed on.
+func (w *rwWorld) checkLiveRegistered() {
+	chk := func(side string, idx int, incs []*rwStreamInc) {
+		if len(incs) == 0 {
+			return
+		}
+		inc := incs[len(incs)-1]
+		if inc.ended || inc.openFails {
+			return
+		}
+		select {
+		case <-inc.done:
+			return
+		default:
+		}
+		shard := history.ClusterShardID{ClusterID: 1, ShardID: int32(idx + 1)}
+		if side == "T" {
+			shard = history.ClusterShardID{ClusterID: 2, ShardID: int32(idx + 1)}
+		}
+		sm := w.smFor(side, idx)
+		if _, ok := sm.GetLocalShards()[ClusterShardIDtoShortString(shard)]; !ok {
+			w.fail("the open stream of %s%d lost its shard registration on %s (nothing ended it; its shard %s is no longer owned there)", side, idx, sm.GetNodeName(), ClusterShardIDtoString(shard))
+		}
+	}
+	for _, s := range w.sources {
+		chk("S", s.idx, s.incs)
+	}
+	for _, t := range w.targets {
+		if t.connected {
+			chk("T", t.idx, t.incs)
+		}
+	}
+}
+
 // smFor: the instance on which the stream of the given shard lands.
 func (w *rwWorld) smFor(side string, idx int) *shardManagerImpl {
 	if len(w.nodes) == 0 {
@@ -524,6 +559,20 @@ func (w *rwWorld) syncNodes() {
 	}
 	for round := 0; round < 4; round++ {
 		changed := false
+		// the periodic full-state exchange between every pair (snapshots are taken before this round's announcements go
+		// out, so they can still list claims that are about to be superseded)
+		time.Sleep(time.Millisecond) // an exchange never happens at the very instant of a registration
+		snaps := make([][]byte, len(w.nodes))
+		for i, n := range w.nodes {
+			snaps[i] = n.sm.delegate.LocalState(false)
+		}
+		for i := range w.nodes {
+			for j, peer := range w.nodes {
+				if i != j {
+					peer.sm.delegate.MergeRemoteState(snaps[i], false)
+				}
+			}
+		}
 		for _, n := range w.nodes {
 			n.sm.mutex.RLock()
 			cur := map[string]ShardInfo{}
